@@ -147,6 +147,21 @@ template <class X> struct Q {
               Str w4 = fmt("list [(\"kkkkkkkk\",NULL), (huge key of %zu characters, \"v\")], normalizeBreaks=%d: worst-case total %lld", n, nb, truth2);
               if (r4 == URI_SUCCESS && truth2 > INT_MAX) c.violation("C17", fmt("query/%s/size-beyond-int-max-not-refused", X::tag()), w4 + fmt(" rc=0 charsRequired=%d", rq));
               else if (r4 == URI_SUCCESS && (long long)rq < len2) c.violation("C17", fmt("query/%s/chars-required-too-small", X::tag()), w4 + fmt(" required=%d", rq)); }
+            // three large operands: what earlier items need, plus key and value of ONE later item, pass 2^32 although each of
+            // the three stays below INT_MAX (a sum kept in an unsigned comes back small)
+            if ((which == 2 && nb == 1) || (which == 3 && nb == 0)) {
+                static const size_t AS[] = {1, 4, 5, 6, 1000, 20000000};
+                for (size_t a : AS) {
+                    QList second; second.key = big; second.value = big; second.next = nullptr; QList first; first.key = big + (n - a); first.value = nullptr; first.next = &second;
+                    int rq = -1; int r5; { LibScope ls; r5 = X::ComposeQueryCharsRequiredEx(&first, &rq, 1, nb); } c.evaluations++;
+                    long long f = nb ? 6 : 3; long long truth3 = f * (long long)a + 1 + f * (long long)n + 1 + f * (long long)n;
+                    Str w5 = fmt("list [(%zu x 'a', NULL), (%zu x 'a', %zu x 'a')], normalizeBreaks=%d: worst-case total %lld (2^32 %+lld)", a, n, n, nb, truth3, truth3 - 4294967296LL);
+                    if (r5 == URI_SUCCESS) c.violation("C17", fmt("query/%s/size-beyond-int-max-not-refused", X::tag()), w5 + fmt(" rc=0 charsRequired=%d", rq));
+                    Char* o5 = nullptr; { LibScope ls; r5 = X::ComposeQueryMallocEx(&o5, &first, 1, nb); } c.evaluations++;
+                    if (r5 == URI_SUCCESS) { c.violation("C17", fmt("query/%s/size-beyond-int-max-not-refused", X::tag()), w5 + " (ComposeQueryMallocEx succeeded)"); free(o5); }
+                    c.count("huge_three_operand_sums");
+                }
+            }
             // the writer with a small buffer: a short first item, then the huge string as key or as value. The worst-case size of the
             // second item added to what is already written passes INT_MAX: it must be refused, and nothing beyond maxChars touched
             for (int asValue = 0; asValue < 2; asValue++) {
